@@ -99,6 +99,7 @@ class Explorer:
         self.model = model
         self.inputs = {}
         self.path_notes = []
+        self.picks = []
         self._fresh = 0
 
     def fresh_name(self, base):
@@ -235,6 +236,18 @@ class Explorer:
             self._add(expr == v)
             return v
 
+    def pick(self, expr, why="") -> int:
+        """Continue with ONE witness value of expr (no alternatives are queued).  The rest of the region is not
+        explored: unless the path ends in a violation the exploration is flagged as not exhaustive."""
+        s = z3.simplify(expr)
+        if z3.is_int_value(s):
+            return s.as_long()
+        m = self._ensure_model()
+        v = m.eval(expr, model_completion=True).as_long()
+        self._add(expr == v)
+        self.picks.append(why or str(expr))
+        return v
+
     # -- obligations -----------------------------------------------------------------------------------------
     def model_inputs(self, model=None):
         m = model if model is not None else self._ensure_model()
@@ -322,6 +335,8 @@ class Explorer:
                 self.paths += 1
                 try:
                     fn()
+                    if self.picks:
+                        self.incomplete.append("region explored through a single witness: " + self.picks[0][:80])
                 except Violation as v:
                     self.violations.append({"label": v.label, "inputs": v.inputs, "detail": v.detail,
                                             "notes": list(self.path_notes)})
